@@ -84,6 +84,10 @@ pub fn add_counters(rep: &mut Rep, w: &World) {
     rep.add("op_pending_checked", c.pending_checked as i64);
     rep.add("inbound_publishes", c.inbound_publishes as i64);
     rep.add("inbound_publishes_with_varied_size", c.sized_inbound as i64);
+    rep.add("publishes_built_with_every_setter_called_twice", c.pubs_set_twice as i64);
+    rep.add("resent_publishes_with_retain_and_properties", c.resent_with_options as i64);
+    rep.add("inbound_pubrel_with_reason_0x92", c.pubrel_not_found as i64);
+    rep.add("acks_with_property_section_over_110_bytes", c.long_ack_props as i64);
     rep.add("inbound_acks_matched", c.inbound_acks_matched as i64);
     rep.add("stream_items_checked", c.stream_items_checked as i64);
     rep.add("quota_refusals_seen", c.quota_refusals as i64);
